@@ -96,6 +96,14 @@ entry:
 x:
 	ret void
 }
+@tbl0 = global [1 x i8*] [i8* blockaddress(@h, %0)]
+define void @h(i8* %p) {
+entry:
+	br label %0
+0:
+	ret void
+}
+uselistorder_bb @h, %0, { 0 }
 `},
 	{"uselistorder", `@g = global i8* blockaddress(@f, %a)
 define void @f(i32 %v) {
@@ -413,6 +421,30 @@ func TestVerifC04(t *testing.T) {
 			fails++
 			fmt.Printf("REPLAY-FAIL corpus %s: %s\n", c.name, e)
 		}
+		// references that name a block from outside its function keep their target: the printed module
+		// mentions exactly the (function, block) pairs the input mentions (the corpus uses canonical names)
+		func() {
+			defer func() {
+				if e := recover(); e != nil {
+					fails++
+					fmt.Printf("REPLAY-FAIL corpus %s: printing panics: %v\n", c.name, e)
+				}
+			}()
+			count := func(text string) map[string]int {
+				out := map[string]int{}
+				for _, tok := range verifC04BlockRef.FindAllString(text, -1) {
+					out[tok]++
+				}
+				return out
+			}
+			want, got := count(c.src), count(m.String())
+			for tok, n := range want {
+				if got[tok] != n {
+					fails++
+					fmt.Printf("REPLAY-FAIL corpus %s: the input mentions `%s` %d time(s), the printed module %d time(s)\n", c.name, tok, n, got[tok])
+				}
+			}
+		}()
 	}
 	fmt.Printf("REPLAY-SAMPLE corpus of %d modules, e.g. %s\n", len(verifCorpus), verifCorpus[4].name)
 	fmt.Printf("REPLAY-CASES %d\n", cases)
@@ -420,6 +452,8 @@ func TestVerifC04(t *testing.T) {
 		t.Fatalf("%d failures", fails)
 	}
 }
+
+var verifC04BlockRef = regexp.MustCompile(`(blockaddress\(@[-a-zA-Z$._0-9]+, %[-a-zA-Z$._0-9]+\)|uselistorder_bb @[-a-zA-Z$._0-9]+, %[-a-zA-Z$._0-9]+)`)
 
 var verifC05Tok = regexp.MustCompile(`(@|%|\$|!)([-a-zA-Z$._][-a-zA-Z$._0-9]*|[0-9]+)`)
 
